@@ -236,6 +236,11 @@ class Program:
                 if short not in self.classes:
                     self.classes[short] = r
                     self.class_tu[short] = tu
+        self.statics = []            # C definitions of static / namespace-scope variables of the library (C18)
+        self.global_vars = {}        # decl name -> C name
+        for tu in self.tus:
+            for d in tu.docs:
+                self._scan_globals(d)
         self.enum_values = {}
         for tu in self.tus:
             for qn, e in tu.enums.items():
@@ -261,6 +266,25 @@ class Program:
                 if ln not in self.defs:
                     self.defs[ln] = (tu, f)
                     self.order.append(ln)
+
+    def _scan_globals(self, n):
+        if n.get('kind') == 'NamespaceDecl':
+            for c in n.get('inner', []):
+                self._scan_globals(c)
+        elif n.get('kind') == 'VarDecl':
+            f, _ = node_line(n)
+            if f and f.startswith(self.repo) and n.get('name') not in self.global_vars:
+                t = parse_type(n['type'].get('desugaredQualType') or n['type']['qualType'], {})
+                if t.kind != 'scalar':
+                    raise ExtractionError('EXTRACTION-UNSUPPORTED namespace-scope variable %s of type %s' % (
+                        n.get('name'), n['type'].get('qualType')))
+                cn = 'vf_global_%s' % n['name']
+                self.global_vars[n['name']] = cn
+                init = ''
+                inner = n.get('inner') or []
+                if inner and inner[0].get('kind') in ('IntegerLiteral', 'FloatingLiteral') :
+                    init = ' = ' + inner[0]['value']
+                self.statics.append('%s%s %s%s;' % ('const ' if t.const else '', t.ctype(), cn, init))
 
     def _const_value(self, c):
         def find(n):
@@ -678,11 +702,27 @@ class Fn:
     def vardecl(self, v):
         if v.get('kind') != 'VarDecl':
             self.unsupported('declaration %s' % v.get('kind'), v)
-        if v.get('storageClass') == 'static':
-            self.unsupported('static local variable', v)
         t = self.p.ty(v['type'])
         name = v['name']
         cn = name
+        if v.get('storageClass') == 'static':
+            # shared mutable state (C18): kept as a C static so that every write to it is a frame violation
+            if t.kind not in ('scalar',) and not (t.kind == 'array' and t.elem.kind == 'scalar'):
+                self.unsupported('static local variable of type %s' % t.kind, v)
+            cn = 'vf_static_%s_%s' % (self.lname, name)
+            self.names[v['id']] = cn
+            init = v.get('inner', [None])[0] if v.get('inner') else None
+            if t.kind == 'array':
+                self.p.statics.append('%s %s[%d];' % (t.elem.ctype(), cn, t.c))
+            else:
+                val = ''
+                if init is not None:
+                    mark = len(self.lines)
+                    val = self.rv(init)
+                    if len(self.lines) != mark:
+                        self.unsupported('static local with a non-constant initialiser', v)
+                self.p.statics.append('%s %s%s;' % (t.ctype(), cn, (' = ' + val) if val else ''))
+            return
         if cn in ('self', 'vf_ret') or cn.startswith('vf_'):
             cn = name + '_l'
         self.names[v['id']] = cn
@@ -973,6 +1013,8 @@ class Fn:
             return self.names[did]
         if rd.get('name') in STD_CONST and rd.get('kind') == 'VarDecl':
             return None
+        if rd.get('kind') == 'VarDecl' and rd.get('name') in self.p.global_vars:
+            return self.p.global_vars[rd['name']]
         self.unsupported('reference to unknown variable %s' % rd.get('name'), n)
 
     def lv(self, n):
@@ -1879,6 +1921,8 @@ class Emitter:
         del out[:]
         w('/* GENERATED by extract/lower.py - do not edit */')
         w('#include "low.h"')
+        for st in p.statics:
+            w(st)
         # special members
         for c in order:
             self.emit_specials(c, w)
